@@ -90,6 +90,35 @@ pub fn read_only(exp: &str, lv: u64, dir: &str, input: &[u8]) -> Result<String, 
     }
 }
 
+macro_rules! ro_expect {
+    ($f:path, $m:ty, $input:expr) => {{
+        let input: &[u8] = $input;
+        let mut cur = Cursor::new(input);
+        match $f(&mut cur) {
+            Err(e) => Err(format!("{e:?}")),
+            Ok(m) => {
+                let _: $m = m;
+                Ok(stringify!($m).to_string())
+            }
+        }
+    }};
+}
+
+/// Decode through the typed `expect_*_message` helper of one fixed message type (CMSG_PING / SMSG_PONG
+/// exist in all three expansions). Used for undefined-opcode faults: the helper must report the opcode.
+pub fn read_only_expect(exp: &str, dir: &str, input: &[u8]) -> Option<Result<String, String>> {
+    use wow_world_messages::{tbc, vanilla, wrath};
+    Some(match (exp, dir) {
+        ("vanilla", "client") => ro_expect!(vanilla::expect_client_message::<vanilla::CMSG_PING, _>, vanilla::CMSG_PING, input),
+        ("vanilla", "server") => ro_expect!(vanilla::expect_server_message::<vanilla::SMSG_PONG, _>, vanilla::SMSG_PONG, input),
+        ("tbc", "client") => ro_expect!(tbc::expect_client_message::<tbc::CMSG_PING, _>, tbc::CMSG_PING, input),
+        ("tbc", "server") => ro_expect!(tbc::expect_server_message::<tbc::SMSG_PONG, _>, tbc::SMSG_PONG, input),
+        ("wrath", "client") => ro_expect!(wrath::expect_client_message::<wrath::CMSG_PING, _>, wrath::CMSG_PING, input),
+        ("wrath", "server") => ro_expect!(wrath::expect_server_message::<wrath::SMSG_PONG, _>, wrath::SMSG_PONG, input),
+        _ => return None,
+    })
+}
+
 fn le_value(v: &Value) -> (u128, usize) {
     let b = bytes_of(v);
     let mut x: u128 = 0;
@@ -126,6 +155,21 @@ pub fn judge_fault(rec: &Value) -> Value {
         Ok(i) => i,
         Err(e) => return base("harness_unsupported", json!(e)),
     };
+    // undefined opcodes are also presented to the typed expect helpers
+    if outcome == "err_opcode" {
+        if let Ok(Some(r)) = guarded(|| read_only_expect(&exp, &dir, &input.bytes)) {
+            let (want, _) = le_value(&rec["val"]);
+            match r {
+                Ok(decoded) => return base("accepted", json!({"entry": "expect helper", "decoded_as": decoded, "input": hex(&input.bytes)})),
+                Err(e) => {
+                    let got = number_after(&e, "Opcode { opcode: ").or_else(|| number_after(&e, "Opcode("));
+                    if got != Some(want as i128) {
+                        return base("wrong_error", json!({"entry": "expect helper", "error": e, "expected_value": want.to_string(), "input": hex(&input.bytes)}));
+                    }
+                }
+            }
+        }
+    }
     let res = guarded(|| read_only(&exp, lv, &dir, &input.bytes));
     match res {
         Err(p) => base("panic", json!({"panic": p, "input": hex(&input.bytes)})),
